@@ -28,7 +28,7 @@ func c04Params(tier string) []*kvops.Params {
 	if !quick {
 		depth = 5
 		alpha = append(alpha, ev("put", 0, 0, "EXAT"), ev("put", 0, 0, "XX+EX"), ev("unlock", 0, 1, ""), ev("compact", 0, 0, ""), ev("janitor", 0, 0, ""))
-		cfs = append(cfs, cf{3, 3, 1 << 16, "EO"}, cf{3, 3, 1 << 16, "CC"}, cf{3, 2, 200, "CC"}, cf{3, 2, 1 << 16, "RN"})
+		cfs = append(cfs, cf{3, 3, 1 << 16, "EO"}, cf{3, 3, 1 << 16, "CC"}, cf{3, 2, 200, "CC"}, cf{3, 2, 1 << 16, "RN"}, cf{3, 2, 1 << 16, "RNx"})
 	}
 	var out []*kvops.Params
 	for _, c := range cfs {
